@@ -15,8 +15,10 @@ package main
 import (
 	"bytes"
 	"encoding/json"
+	"net/url"
 	"os"
 	"path/filepath"
+	"strings"
 )
 
 // c19Extern performs an external edit of the settings file.
@@ -57,9 +59,40 @@ func c19Extern(file string, st c19Step) {
 	}
 }
 
+// names that look URL-encoded; each is used TOGETHER with what one (and two) levels of URL decoding
+// make of it, so a handler that decodes a name once too often (or once too few) names the wrong entry
+var c19EncodedNames = []string{"cpu+hot", "top%2025", "a%2Bb", "x%252By", "100%25", "q%3Dv%26w", "%C3%BC", "p%2Fq%3Fr%23s", "sp%20ace+d", "%2B", "%25", "%2525"}
+
+// names that cannot be decoded a second time, and other awkward ones
+var c19AwkwardNames = []string{"100%", "%", "%zz", "+", "a&b=c", "#frag", "?q", "/etc/passwd", `"quoted"`, "it's", "ü€😀", "<b>", "a  b", strings.Repeat("very-long-name+%25-", 150) + "end"}
+
+func c19HistNames(r *Rng) []string {
+	switch r.Intn(10) {
+	case 0, 1, 2:
+		return []string{"X", "Y", "Z"}[:2+r.Intn(2)]
+	case 3, 4, 5, 6, 7:
+		x := c19EncodedNames[r.Intn(len(c19EncodedNames))]
+		names := []string{x}
+		for cur := x; len(names) < 3; {
+			d, err := url.QueryUnescape(cur)
+			if err != nil || d == cur || strings.TrimSpace(d) != d {
+				break // (the harness reads names back from the rendered menu, which trims surrounding blanks)
+			}
+			names = append(names, d)
+			cur = d
+		}
+		if len(names) < 3 {
+			names = append(names, c19AwkwardNames[r.Intn(len(c19AwkwardNames))])
+		}
+		return names
+	}
+	a := c19AwkwardNames[r.Intn(len(c19AwkwardNames))]
+	return []string{a, c19AwkwardNames[r.Intn(len(c19AwkwardNames))], "X"}
+}
+
 func c19GenHist(r *Rng, t *c19Table) c19Case {
 	cs := c19Case{Kind: "seq"}
-	names := []string{"X", "Y", "Z"}[:2+r.Intn(2)]
+	names := c19HistNames(r)
 	nsets := 2 + r.Intn(2)
 	var sets []c19Step
 	for i := 0; i < nsets; i++ {
@@ -70,11 +103,25 @@ func c19GenHist(r *Rng, t *c19Table) c19Case {
 		}
 		sets = append(sets, st)
 	}
+	enc := func() string {
+		if r.Chance(40) {
+			return "raw"
+		}
+		return ""
+	}
 	mk := func(name string, k int) c19Step {
 		st := sets[k]
-		return c19Step{Op: "save", Name: name, Params: st.Params, Intent: st.Intent}
+		return c19Step{Op: "save", Name: name, Params: st.Params, Intent: st.Intent, Enc: enc()}
 	}
 	var reqs []c19Step // requests issued so far (to repeat one exactly)
+	if r.Chance(60) {
+		// all names present at the same time before anything is deleted
+		for _, nm := range names {
+			st := mk(nm, r.Intn(nsets))
+			reqs = append(reqs, st)
+			cs.Steps = append(cs.Steps, st)
+		}
+	}
 	n := 6 + r.Intn(11)
 	for i := 0; i < n; i++ {
 		var st c19Step
@@ -87,7 +134,7 @@ func c19GenHist(r *Rng, t *c19Table) c19Case {
 		case k < 55:
 			st = mk(names[r.Intn(len(names))], r.Intn(nsets))
 		case k < 72:
-			st = c19Step{Op: "delete", Name: names[r.Intn(len(names))]}
+			st = c19Step{Op: "delete", Name: names[r.Intn(len(names))], Enc: enc()}
 		case k < 77:
 			st = c19Step{Op: "delete", Name: "missing"}
 		case k < 87:
